@@ -13,9 +13,10 @@ import DL.Model.CF
 * `try/catch/finally` per ECMA-262 §14.15: the handler runs iff the block may throw, the finalizer runs after any
   completion and overrides it when it completes abruptly.
 
-Both are structural, executable computations and are *the definition* of the reference semantics used by the theorems
-and by the search oracles (an inductive big-step relation `Exec` with an exactness proof was planned and not built; the
-closed forms are what a reader has to audit).
+Both are structural, executable computations.  `Model/CFExec.lean` states the same semantics as a plain inductive
+big-step relation (`Exec`, `Reaches`), and `Props/C10Ref.lean` proves the closed forms exact for it
+(`compl_iff_exec` unconditionally, `reach_iff_reaches` on the fragment `inF`): what a reader has to audit is the
+inductive relation; the closed forms are what the search oracles evaluate.
 -/
 namespace DL.CF
 
